@@ -95,7 +95,10 @@ class Ctx:
         if res['n_disagreements']:
             self.violations.append({'kind': 'correspondence-broken', 'found_input': False,
                                     'replay': {'correspondence': name, 'n_disagreements': res['n_disagreements'],
-                                               'first': res['disagreements'][:5]}})
+                                               'first': res['disagreements'][:5],
+                                               # (pattern, flags, name) on which the regex now produced and the regex of the
+                                               # verified model behave differently under `re` - the place to look
+                                               'behaviour_differs_on': res.get('semantic_examples', [])[:8]}})
         return res['n_disagreements'] == 0
 
     def counted(self, name, evals, nontrivial, samples=(), extra=None):
